@@ -58,7 +58,7 @@ def compare(model_children, tokens, path, errs, stats, parent_line):
 def check_case(case, excludes):
     from mistletoe import Document
     try:
-        doc, text, exp, res = c03.build(case, {'exclude': excludes})
+        doc, text, exp, res = c03.build(case, {'exclude': excludes, 'refs': int(case['tape'][:2] or '0', 16) % 2 == 0})
     except (ValueError, KeyError, TypeError) as exc:
         return Out(skip='malformed case: %r' % (exc,))
     kinds, inl, depth = c03.model_labels(doc)
